@@ -395,6 +395,14 @@ func checkC01(c *Check, p *Program) {
 			}
 		})
 	}
+	// ---- (c) no decoded value aliases the input
+	inSet := map[*ssa.Function]bool{}
+	for _, f := range all {
+		inSet[f] = true
+	}
+	for _, f := range all {
+		checkNoAlias(c, p, "C01.c", f, inSet)
+	}
 	c.Note("index/slice expressions in D: %d; compiler-proved: %d; proved by the bounded-offset prover: %d", tIdx, tE3, tE2)
 	c.Extra("index_slice_sites", tIdx)
 	c.Extra("compiler_proved", tE3)
@@ -891,5 +899,170 @@ func checkReceiverProgress(c *Check, p *Program, udp, tcp *ssa.Function) {
 			}
 		}
 		c.Decide(ok, "C01.d", FuncName(tcp)+" every iteration consumes at least one byte", p.InstrPos(lp.Header.Instrs[0]), "io.ReadFull into a buffer of length >= 1 dominates every back edge", why)
+	}
+}
+
+// checkNoAlias: a decode function keeps no reference into its input.  The
+// receivers decode every datagram from one reused buffer, so a decoded value
+// that still points into the input changes when the next datagram arrives.
+// Taint: the input parameter and every slice expression / conversion / phi /
+// local copy of it.  Sinks: a store of a tainted value anywhere but a local
+// variable, a return, a send, a closure capture, append onto it, copy into
+// it.  Passing it on to another function of the decode set is fine (judged
+// there); string(x) and copy(dst, x) copy.
+func checkNoAlias(c *Check, p *Program, rule string, fn *ssa.Function, inSet map[*ssa.Function]bool) {
+	data := inputParam(fn)
+	if data == nil {
+		return
+	}
+	name := FuncName(fn)
+	tainted := map[ssa.Value]bool{data: true}
+	localCell := func(a ssa.Value) *ssa.Alloc {
+		al, ok := a.(*ssa.Alloc)
+		if !ok {
+			return nil
+		}
+		if _, esc := cellWriters(al); esc {
+			return nil
+		}
+		// a cell whose address is handed to a call is not local for this purpose
+		ws, _ := cellWriters(al)
+		for _, w := range ws {
+			if _, isSt := w.(*ssa.Store); !isSt {
+				return nil
+			}
+		}
+		return al
+	}
+	isSliceLike := func(t types.Type) bool {
+		switch t.Underlying().(type) {
+		case *types.Slice:
+			return true
+		}
+		return false
+	}
+	for changed := true; changed; {
+		changed = false
+		mark := func(v ssa.Value) {
+			if !tainted[v] {
+				tainted[v] = true
+				changed = true
+			}
+		}
+		instrsOf(fn, func(in ssa.Instruction) {
+			switch x := in.(type) {
+			case *ssa.Slice:
+				if tainted[x.X] {
+					mark(x)
+				}
+			case *ssa.ChangeType:
+				if tainted[x.X] {
+					mark(x)
+				}
+			case *ssa.Convert:
+				if tainted[x.X] && isSliceLike(x.Type()) {
+					mark(x)
+				}
+			case *ssa.Phi:
+				for _, e := range x.Edges {
+					if tainted[e] {
+						mark(x)
+					}
+				}
+			case *ssa.UnOp:
+				if x.Op == token.MUL {
+					if al := localCell(x.X); al != nil {
+						for _, st := range cellStores(al) {
+							if tainted[st.Val] {
+								mark(x)
+							}
+						}
+					}
+				}
+			case *ssa.Call:
+				// library helpers that return a sub-slice of their argument
+				if o := calleeObj(x); o != nil && o.Pkg() != nil && o.Pkg().Path() == "bytes" && isSliceLike(x.Type()) {
+					for _, a := range x.Common().Args {
+						if tainted[a] {
+							mark(x)
+						}
+					}
+				}
+			}
+		})
+	}
+	bad := func(in ssa.Instruction, why string) {
+		c.Fail(rule, name+" keeps a reference into its input", p.InstrPos(in), why+": the decoded value changes when the receive buffer is reused for the next datagram (or the input is written)")
+	}
+	n := 0
+	instrsOf(fn, func(in ssa.Instruction) {
+		switch x := in.(type) {
+		case *ssa.Store:
+			if tainted[x.Val] && localCell(x.Addr) == nil {
+				n++
+				bad(in, "a slice of the input is stored into "+describe(x.Addr))
+			}
+			if ia, ok := x.Addr.(*ssa.IndexAddr); ok && tainted[ia.X] {
+				n++
+				bad(in, "an element of the input is assigned")
+			}
+		case *ssa.Return:
+			for _, r := range x.Results {
+				if tainted[r] {
+					n++
+					bad(in, "a slice of the input is returned")
+				}
+			}
+		case *ssa.Send:
+			if tainted[x.X] {
+				n++
+				bad(in, "a slice of the input is sent on a channel")
+			}
+		case *ssa.MakeClosure:
+			for _, b := range x.Bindings {
+				if tainted[b] {
+					n++
+					bad(in, "a slice of the input is captured by a closure")
+				}
+			}
+		case *ssa.MakeInterface:
+			if tainted[x.X] {
+				// boxed: fine when it only travels to calls of the decode set (varargs of the generic unpacker); a store is caught above
+				for _, u := range usesOf(x) {
+					if st, ok := u.(*ssa.Store); ok && localCell(st.Addr) == nil {
+						if ia, isIA := st.Addr.(*ssa.IndexAddr); !isIA || !isVarargsArray(ia.X) {
+							n++
+							bad(in, "a slice of the input is boxed and stored")
+						}
+					}
+				}
+			}
+		case *ssa.Call:
+			switch builtinName(x) {
+			case "append":
+				if tainted[x.Common().Args[0]] {
+					n++
+					bad(in, "append onto a slice of the input (writes into the input's backing array)")
+				}
+			case "copy":
+				if tainted[x.Common().Args[0]] {
+					n++
+					bad(in, "copy into the input")
+				}
+			case "":
+				callee := x.Common().StaticCallee()
+				if callee != nil && p.InModule(callee) && !inSet[callee] {
+					for _, a := range x.Common().Args {
+						if tainted[a] {
+							n++
+							bad(in, "a slice of the input is handed to "+FuncName(callee)+", which is not part of the decode set")
+						}
+					}
+				}
+			}
+		}
+	})
+	if n == 0 {
+		c.OK(rule, name+" keeps no reference into its input", p.Pos(fn.Pos()), "no store, return, send or capture of a slice of the input")
 	}
 }
